@@ -23,5 +23,7 @@ for line in log:
     mp = d+"/meta.json"
     if os.path.exists(mp):
         old = json.load(open(mp)); meta["results"] = old.get("results")
+        for k in ("note", "notes"):
+            if k in old: meta[k] = old[k]
     json.dump(meta, open(mp,"w"), indent=1)
     print(h, slug, props)
